@@ -481,4 +481,22 @@ Section SubkeyProofs.
     exists (k1 ++ ["1"%byte]), (k2 ++ ["1"%byte]). split; [|exact E1].
     exact (proj1 (different_files_different_inputs k1 k2 "1"%byte "1"%byte Hne)).
   Qed.
+
+  (* PARTIAL: what is proved of "two daemons honour each other's credentials exactly when
+     their key files are byte-identical" — at the level of the subkeys that key the MAC
+     and the cipher.  Missing for the full statement: the credential pipeline model
+     (C01/C02: a credential is honoured iff its MAC verifies under the decoder's mac
+     subkey) and the step from "different subkeys" to "refused", which is HMAC
+     unforgeability, not a Coq statement; the two-live-daemon test is left to the rig. *)
+  Theorem cross_acceptance_partial : forall k1 k2 : bytes,
+    32 <= length k1 -> 32 <= length k2 ->
+    (k1 = k2 -> create_subkeys st hinit hupd hfin k1 = create_subkeys st hinit hupd hfin k2) /\
+    (create_subkeys st hinit hupd hfin k1 = create_subkeys st hinit hupd hfin k2 ->
+     k1 = k2 \/ exists a b, a <> b /\ Hh a = Hh b).
+  Proof.
+    intros k1 k2 L1 L2. split.
+    - intros ->. reflexivity.
+    - intros E. destruct (list_eq_dec Byte.byte_eq_dec k1 k2) as [Heq|Hne]; [left; exact Heq|].
+      right. exact (equal_subkeys_collision k1 k2 L1 L2 Hne E).
+  Qed.
 End SubkeyProofs.
